@@ -141,6 +141,7 @@ def generate(contract):
                     unroll_while=getattr(contract, 'unroll_while', 0))
         ctx.interp = it
         it.local_repr = dict(getattr(contract, 'local_repr', None) or {})
+        it.sym_unpack = bool(getattr(contract, 'sym_unpack', False))
         it.index_loops(fn.node)
         try:
             if hasattr(contract, 'body'):
